@@ -105,6 +105,11 @@ struct DaemonScenario : Scenario {
     QmailEnv::build(w, cfg);
     Kernel &k = w.k;
     write_routing_controls(w);
+    if (cfg.geti("bouncectl", 0)) {
+      bouncefrom = "bouncer"; bouncehost = "bh.example"; doublebounceto = "dbl-catcher@dbh.example";
+      k.put_file("/var/qmail/control/bouncefrom", "bouncer\n"); k.put_file("/var/qmail/control/bouncehost", "bh.example\n");
+      k.put_file("/var/qmail/control/doublebounceto", "dbl-catcher\n"); k.put_file("/var/qmail/control/doublebouncehost", "dbh.example\n");
+    }
     k.put_file("/var/qmail/control/concurrencylocal", std::to_string(conc_l) + "\n");
     k.put_file("/var/qmail/control/concurrencyremote", std::to_string(conc_r) + "\n");
     k.put_file("/var/qmail/control/queuelifetime", std::to_string(lifetime) + "\n");
@@ -197,7 +202,7 @@ struct DaemonScenario : Scenario {
   }
 
   // ------------------------------------------------------------------ C14: bounce notices
-  std::string bouncehost = "me.example", doublebounceto = "postmaster@me.example";
+  std::string bouncefrom = "MAILER-DAEMON", bouncehost = "me.example", doublebounceto = "postmaster@me.example";   // defaults; bouncectl=1 sets all four control files
   static std::string base_sender(const std::string &s) { if (s.size() >= 4 && s.compare(s.size() - 4, 4, "-@[]") == 0) return s.substr(0, s.size() - 4); return s; }
   void check_bounce(World &w, MsgState &b) {
     w.counters["bounce_notices_checked"]++;
@@ -218,6 +223,10 @@ struct DaemonScenario : Scenario {
     std::string want_sender = isdouble ? "#@[]" : "", want_rcpt = isdouble ? doublebounceto : base_sender(orig->sender);
     if (orig->sender == "#@[]") { w.violation("C14:bounce-of-double-bounce", "a failing double bounce (sender #@[]) produced yet another notice: bounce loop"); return; }
     if (b.sender != want_sender || b.rc.size() != 1 || b.rc[0].addr != want_rcpt) { w.violation("C14:bounce-envelope:" + orig->sender, "bounce for a message from [" + orig->sender + "] was queued with envelope sender [" + b.sender + "] recipient [" + (b.rc.empty() ? "" : b.rc[0].addr) + "]; documented: sender [" + want_sender + "] recipient [" + want_rcpt + "]"); return; }
+    // header: From the configured bounce address, To the notice's recipient
+    { size_t he = b.body.find("\n\n"); std::string hdr = "\n" + b.body.substr(0, he == std::string::npos ? 0 : he + 1);
+      if (hdr.find("\nFrom: " + bouncefrom + "@" + bouncehost + "\n") == std::string::npos) { w.violation("C14:notice-from", "bounce notice is not From: " + bouncefrom + "@" + bouncehost + " (bouncefrom/bouncehost): [" + esc(hdr, 200) + "]"); return; }
+      if (hdr.find("\nTo: " + want_rcpt + "\n") == std::string::npos && want_rcpt.find_first_of(" \"\\()<>") == std::string::npos) { w.violation("C14:notice-to", "bounce notice header does not say To: " + want_rcpt + ": [" + esc(hdr, 200) + "]"); return; } }
     // paragraphs: between the intro and the copy of the original message
     std::string copy_marker = isdouble ? "--- Below this line is the original bounce.\n\n" : "--- Below this line is a copy of the message.\n\n";
     std::string tail = copy_marker + "Return-Path: <" + base_sender(orig->sender) + ">\n" + orig->body;
